@@ -19,6 +19,15 @@ TSent == IsEvent("ClientSent") /\ Run /\ UNCHANGED svars
 TClientClose == IsEvent("ClientClose") /\ Run /\ UNCHANGED svars
 TGreet == IsEvent("GreetReply") /\ Run /\ GreetReply(S(Ev.s), Ev.ver, Ev.method)
 TReply == IsEvent("Reply") /\ Run /\ Reply(S(Ev.s), Ev.code, Ev.kind)
+\* a well-formed BIND is refused because the port it asks for is held by another session of the run (a malformed BIND the
+\* proxy served, whose garbled port field happened to name it): from then on nothing is required of this session
+TReplyBusy == /\ IsEvent("Reply") /\ Run
+              /\ LET s == S(Ev.s) IN
+                 /\ d[s].valid /\ d[s].cmd = "bind" /\ Ev.code # Success /\ ~ss[s].closed
+                 /\ \E k \in 1..(l - 1) : TraceLog[k].e = "Reply" /\ TraceLog[k].s # Ev.s /\ TraceLog[k].port = 4000 + Ev.s
+                 /\ d' = [d EXCEPT ![s].valid = FALSE]
+                 /\ ss' = [ss EXCEPT ![s].st = "replied", ![s].replies = @ + 1]
+                 /\ UNCHANGED <<ver, ending>>
 TUp == IsEvent("UpSent") /\ Run /\ UpSent(S(Ev.s), Ev.n)
 \* a connection / bytes the target cannot attribute to a session (s = 0): only a malformed negotiation that the proxy
 \* served anyway can cause it (what is left of the garbled request is relayed as payload); nothing is required of it
@@ -41,7 +50,7 @@ TClosed == IsEvent("Closed") /\ Run /\ Ev.leftover = 0 /\ Closed(S(Ev.s))
 TCounts == /\ IsEvent("Counts") /\ Run /\ Ending
            /\ CountsOK("connect", Ev.connect) /\ CountsOK("bind", Ev.bind) /\ CountsOK("udp", Ev.udp)
 TEnd == IsEvent("End") /\ phase = "run" /\ phase' = "idle" /\ Complete /\ UNCHANGED svars
-TNext == TUdpShort \/ TCfg \/ TAdv \/ TOpen \/ TSent \/ TClientClose \/ TGreet \/ TReply \/ TUp \/ TTargetConn \/ TTargetRecv \/ TTargetEof
+TNext == TReplyBusy \/ TUdpShort \/ TCfg \/ TAdv \/ TOpen \/ TSent \/ TClientClose \/ TGreet \/ TReply \/ TUp \/ TTargetConn \/ TTargetRecv \/ TTargetEof
          \/ TClientRecv \/ TPeer \/ TUdpSent \/ TTargetUdp \/ TClientUdp \/ TClosed \/ TCounts \/ TEnd
 TSpec == TInit /\ [][TNext]_tvars
 RecordProgress == TLCSet(1, [l |-> l, st |-> [s \in Sessions |-> [st |-> ss[s].st, ok |-> ss[s].ok, rep |-> ss[s].replies,
